@@ -117,6 +117,46 @@ func H16_css() {
 	vsymAssert(GetColor(s) == c, "GetColor(CSS()) round-trips")
 }
 
+// H16_near: palettes holding the colour itself, a near-duplicate of it (one channel
+// changed in its low two bits) and an arbitrary third colour, in every order: the
+// region where early exits and thresholds in the search show, and where the real
+// CIE76 values agree with what the solver may assume of the uninterpreted distance
+// (so counterexamples replay).  Same oracle as H16_find.
+func H16_near() {
+	c := h16color("c", 1)
+	ch := vsymChoice("channel", 3)
+	d := vsymInt("delta")
+	vsymAssume(vsymAnd(d >= 1, d <= 3))
+	near := Color(uint64(c) ^ (uint64(d) << (8 * uint(ch))))
+	far := h16color("far", 1)
+	var pal []Color
+	switch vsymChoice("order", 6) {
+	case 0:
+		pal = []Color{near, c, far}
+	case 1:
+		pal = []Color{near, far, c}
+	case 2:
+		pal = []Color{c, near, far}
+	case 3:
+		pal = []Color{far, near, c}
+	case 4:
+		pal = []Color{far, c, near}
+	default:
+		pal = []Color{c, far, near}
+	}
+	m := FindColor(c, pal)
+	member := false
+	for i := range pal {
+		member = vsymOr(member, pal[i] == m)
+	}
+	vsymAssert(member, "FindColor result is a member of the palette")
+	dm := h16distance(c, m)
+	for i := range pal {
+		di := h16distance(c, pal[i])
+		vsymAssert(!(di < dm), "no palette member is strictly closer than the result (palette with near-duplicates)")
+	}
+}
+
 // h16distance computes the distance exactly as FindColor does (same library
 // call, hence the same uninterpreted function in the engine; NaN counts as +Inf).
 func h16distance(c, d Color) float64 {
